@@ -23,21 +23,39 @@ LEVEL_TEXT = ('Full in exact arithmetic: Coq theorems over R about predict / cor
               'translation restated over the modelled energies with no hypothesis on forms; total mass m(c,c\') = rho * sum_q w_q * c.c\' from the '
               'partition of unity; composed with C03 (meshes built from reference tables satisfying the certificate predicates RefIds/TriQuadExact): '
               '|total mass - rho * area * c.c\'| <= |rho c.c\'| area ((1+2 epsq) eps (2+eps) + 2 epsq), exact for exact tables. '
+              'LINEARITY / SCALE INVARIANCE (round 4): predict and correct are homogeneous and additive in their array arguments for every gamma, beta, dt '
+              '(no side condition); the new acceleration is zero only for a zero correction; a corrector with an absolute dead band |UCorrection| <= tau is '
+              'refuted as non-homogeneous for every tau > 0; one step commutes with scaling / addition whenever the minimiser does; for linear elasticity '
+              '(M positive definite, K >= 0, beta > 0) the stationary point of the algorithmic energy is unique, so every minimiser oracle is linear and the '
+              'whole run is a linear map of the initial state (every gamma, every sequence of non-zero steps), restated over the modelled energies of a mesh '
+              'with no hypothesis on forms (C15_fe_run_scale_invariant / _additive). '
+              'PURITY (round 4): store model of the statements of predict / correct (model/M_C15_Purity.v: heap of (value, writable) objects, names -> addresses, '
+              'x += e in place for writable objects and rebinding otherwise, jit(f) runs on fresh immutable copies); statement lists, returned names and the jit '
+              'wrapping in the DynamicsFunctions(...) constructor call are regenerated from the AST on every run (gen/CFG_c15.v, fail closed); theorem: a function '
+              'that is wrapped in jit OR never augments a name that may denote a caller object leaves every pre-existing object unchanged, for every value oracle, '
+              'writability, heap and argument list (C15_predict_pure / C15_correct_pure instantiate it on the regenerated tables by computation); immutable '
+              'arguments imply purity for any function; the unwrapped predict on writable arrays is refuted by a witness (the jit wrapper is load-bearing). '
+              'Streams: purity + Newmark formulas against the ORIGINAL state under a step-doubling driver on numpy / read-only numpy / jax state; scale invariance '
+              'of whole runs and of predict / correct on arrays over amplitudes 1e-12..1e12 (bit-for-bit for powers of two), additivity of predict / correct. '
               'Still premises: unisolvence (false for admitted under-integrating rules; checked numerically), K c = 0 only exact for exact tables, '
               'the mesh-integral model is tied to FunctionSpace/Mechanics by correspondence (binary64 energies, forms, algorithmic energy on real '
               'function spaces incl. an under-integrated order-2 one), axisymmetric / pressure projection not modelled; everything in binary64 is '
               'covered by the correspondence on the real DynamicsFunctions (dense Newton solve of the algorithmic energy inside the harness).')
 TECHNIQUE = 'Coq proof (Reals + Coquelicot) over kernels regenerated from the Python AST + field model; vm_compute/PrimFloat correspondence'
-GEN = ['Mechanics', 'TensorMath', 'LinearElastic']
+GEN = ['Mechanics', 'TensorMath', 'LinearElastic', 'CFG_c15']
 ANCHOR_FILES = ['optimism/FunctionSpace.py']     # hand-modelled in model/M_C15_FE.v: interpolate_to_point, compute_quadrature_point_field_gradient, integrate_over_block
-TARGETS = ['proofs/L_C15.vo', 'model/M_C15_Newmark.vo', 'model/M_C15_FE.vo', 'proofs/L_C15fe.vo', 'proofs/L_C15fe_C03.vo']
-COQ_FILES = ['base/Num.v', 'model/M_C15_Newmark.v', 'model/M_C15_FE.v', 'proofs/L_C15.v', 'proofs/L_C15fe.v', 'proofs/L_C15fe_C03.v', 'props/P_C15.v']
+TARGETS = ['proofs/L_C15.vo', 'model/M_C15_Newmark.vo', 'model/M_C15_FE.vo', 'proofs/L_C15fe.vo', 'proofs/L_C15fe_C03.vo',
+           'model/M_C15_Purity.vo', 'proofs/L_C15lin.vo', 'proofs/L_C15linfe.vo', 'proofs/L_C15pure.vo']
+COQ_FILES = ['base/Num.v', 'model/M_C15_Newmark.v', 'model/M_C15_FE.v', 'proofs/L_C15.v', 'proofs/L_C15fe.v', 'proofs/L_C15fe_C03.v',
+             'model/M_C15_Purity.v', 'proofs/L_C15lin.v', 'proofs/L_C15linfe.v', 'proofs/L_C15pure.v', 'props/P_C15.v']
 TRUSTED = ['Coq 8.16.1 kernel + vm_compute (no native_compute)',
            'tools/vlib/py2coq.py translator (Python ast -> Gallina over Num T; closure variable newmarkParameters as leading parameters gamma, beta; arrays elementwise), cross-checked by running the generated kernels at binary64 against DynamicsFunctions.predict/correct on arrays',
            'field model model/M_C15_Newmark.v (algorithmic energy as in compute_newmark_lagrangian; kinetic energy as weighted sum over quadrature points), cross-checked at binary64 against compute_output_kinetic_energy / compute_element_masses on real function spaces',
            'mesh-integral model model/M_C15_FE.v (interpolate_to_point, compute_quadrature_point_field_gradient, zero padding of tensor_2D_to_3D, integrate_over_block, compute_newmark_lagrangian composed with the regenerated LinearElastic / TensorMath / Mechanics kernels), cross-checked at binary64 (relative 1e-12 of the rounding scale = sum of |terms| / Cauchy-Schwarz scale of the forms) against compute_output_kinetic_energy, compute_output_strain_energy, compute_algorithmic_energy and u.M.v, u.K.v with the jax Hessians, on real function spaces (order 1, order 2 fully and under-integrated); fs.shapes / fs.shapeGrads / fs.vols / mesh.conns are read from the function space',
            'C03 development (proofs/L_C03lift.v, L_C03cert.v): lifting theorems and certificate predicates used by the composition theorems',
            'harness: dense Newton minimisation of DynamicsFunctions.compute_algorithmic_energy with jax.grad/jax.hessian (the library solver is not part of this property); tolerances: kernels 8 ulp, balance/stationarity 1e-8 of the two forces + rounding floor 1e-14 sqrt(n) (|K| |U1| + |M| (|U1|+|Up|)/(beta dt^2)) (the forces vanish by cancellation in a rigid translation), update 1e-11 relative, energy drift 1e-10 * E0 * steps',
+           'store model model/M_C15_Purity.v + extractor tools/vlib/extract_c15.py: Python semantics of augmented assignment (in place exactly for writable numpy.ndarray, rebinding for jax arrays / tracers), of jax.jit (the body only sees fresh immutable tracers of the arguments) and freedom from side effects of arithmetic and np.* (jax.numpy) calls are modelled by hand; cross-checked on the implementation by the purity stream (caller-held numpy / read-only numpy / jax arrays compared bit-for-bit before and after every predict / correct call of a step-doubling driver)',
+           'scale streams: factors 2^k are exact in binary64, so the scaled run must equal the scaled unit run to 1e-12 normwise (observed 0); other factors 1e-9 normwise for runs, 1e-14 of the rounding scale per entry for predict / correct on arrays; additivity 1e-14 of the rounding scale',
            'theorems are over exact reals; binary64 rounding is covered only by the correspondence']
 ASSUMPTIONS = ['exact real arithmetic in theorems; dt <> 0 and beta <> 0 stated explicitly (division in correct)',
                'abstract theorems: mass form m and stiffness form k are symmetric bilinear forms on fields (Section hypotheses sbf); for translation also m positive definite, k positive semi-definite, k c = 0 -- all proved for the quadrature model of the forms (C15_fe_*) except definiteness, which is proved EQUIVALENT to unisolvence of the quadrature points (premise; smallest eigenvalue of the assembled mass matrix checked numerically in every run)',
@@ -45,8 +63,12 @@ ASSUMPTIONS = ['exact real arithmetic in theorems; dt <> 0 and beta <> 0 stated 
                'the minimiser is an oracle returning a stationary point of the algorithmic energy (hypothesis stationary_at)',
                'general strain energies: directional differentiability (hypothesis HdSE); proved outright for the quadratic energy',
                'partition of unity of the shape functions at the quadrature points (premise of the mass theorems; property C03)',
+               'linearity of the run: quadratic strain energy (linear elasticity), M positive definite (<=> unisolvence), K >= 0, beta > 0, all dt <> 0; linearity of predict / correct themselves needs nothing',
+               'purity theorems quantify over every value oracle / writability / heap / argument list of the store model; that the store model describes CPython + numpy + jax is trusted (see TRUSTED) and sampled by the purity stream',
                'functional extensionality (standard library axiom) for equality of fields']
-RULE = ('mesh-integral model stream (fe_model): on three real function spaces per run (structured order 1; distorted order 2 with the under-integrating degree-2 rule; distorted order 2 fully integrated) the arrays fs.shapes / fs.shapeGrads / fs.vols / mesh.conns are fed to model/M_C15_FE.v and its kinetic, strain and algorithmic energies, mass and stiffness forms on seeded random fields (displacement amplitude 5% of the width, random predictor offset, dt over two decades) and total volume are compared with the library\'s reported energies and the jax Hessians of them; a problem is distinct by (mesh, order, rule, material constants). '
+RULE = ('purity stream (problems 0 and 1 of every run, trapezoidal, order 1 and 2): state held by the caller as writable numpy arrays, read-only numpy arrays and jax arrays; step-doubling driver (one step dt and two steps dt/2 from the SAME state objects, the half steps accepted) over random step sizes; after every predict / correct call the arrays handed in are compared bit-for-bit with copies taken before, predictor / update formulas are evaluated against those copies, accepted states conserve energy resp. reproduce a rigid translation. '
+        'scale streams: one random consistent state per problem, run of 3 (thorough 8) variable steps, repeated from s * state for s = 2^k nearest 1e-12..1e12 (10 values), 10^k (6 values) and random factors over 24 decades, compared normwise with s * (unit run); predict / correct on arrays of 24 entries (magnitudes over six decades, some zeros; numpy and jax arguments) for the same factors plus additivity on a second random triple. '
+        'mesh-integral model stream (fe_model): on three real function spaces per run (structured order 1; distorted order 2 with the under-integrating degree-2 rule; distorted order 2 fully integrated) the arrays fs.shapes / fs.shapeGrads / fs.vols / mesh.conns are fed to model/M_C15_FE.v and its kinetic, strain and algorithmic energies, mass and stiffness forms on seeded random fields (displacement amplitude 5% of the width, random predictor offset, dt over two decades) and total volume are compared with the library\'s reported energies and the jax Hessians of them; a problem is distinct by (mesh, order, rule, material constants). '
         'additional problems in every tier: element order 2 (thorough: also 3) with UNDER-integrating rules (degree 2 / 4) on distorted meshes with non-rigid initial velocity, energy measured with the library\'s own compute_output_kinetic_energy + compute_output_strain_energy; entrywise equality of the mass driving the integrator (beta dt^2 (Hessian of the algorithmic energy - K)) and the mass of the reported kinetic energy. '
         'meshes: structured, random extents and divisions, element order 1 and 2; material: linear elastic with random E, nu, density; '
         'Newmark parameters: trapezoidal and random (gamma >= 1/2, beta >= (gamma+1/2)^2/4); random initial displacement/velocity fields with '
@@ -413,6 +435,342 @@ def check_hypotheses_and_mass(ctx, P, r):
     return dict(M=M, K=K, sxx=sxx)
 
 
+# ----------------------------------------------------------------------------- purity of predict / correct (caller's state not mutated)
+
+ARRAY_KINDS = ('numpy', 'numpy-readonly', 'jax')
+
+
+def as_kind(x, akind):
+    """a fresh array of the requested kind holding the values of x (numpy: writable C array, as restored from a checkpoint file;
+    numpy-readonly: the same with the WRITEABLE flag cleared, as given by onp.load(mmap_mode='r') / a broadcast view; jax: jax.numpy)"""
+    I = impl()
+    a = I['onp'].array(x, dtype=float, copy=True)
+    if akind == 'jax':
+        return I['jnp'].array(a)
+    if akind == 'numpy-readonly':
+        a.setflags(write=False)
+    return a
+
+
+def _unchanged(ctx, names, arrays, copies, where, case):
+    """the caller's objects hold bit-for-bit what they held before the call"""
+    onp = impl()['onp']
+    ok = True
+    for nm, a, c in zip(names, arrays, copies):
+        b = onp.asarray(a)
+        if b.shape != c.shape or not onp.array_equal(b, c, equal_nan=True):
+            k = int(onp.argmax(onp.abs(b - c).ravel())) if b.shape == c.shape else -1
+            ctx.fail('conclusion', '%s changed the caller\'s array %s in place (%s state): entry %d was %r and is %r after the call -- predict/correct '
+                     'are functions of the old state; the state handed to them must still be the old state afterwards'
+                     % (where, nm, case['array_kind'], k, float(c.ravel()[k]) if k >= 0 else None, float(b.ravel()[k]) if k >= 0 else None),
+                     case=case, concrete=True)
+            ok = False
+    return ok
+
+
+def pure_step(ctx, P, U, V, A, dt, akind, case, worst, keep=None):
+    """one Newmark step with the implementation's predict / correct called on the CALLER'S arrays (kind akind), asserting that (i) the arrays
+    handed in are unchanged afterwards and (ii) the Newmark predictor / update formulas hold against the ORIGINAL state (copies taken before
+    the calls).  Returns the new state as fresh arrays of the same kind, or None after a failure."""
+    I = impl()
+    jnp, onp = I['jnp'], I['onp']
+    b_, g_ = P.beta, P.gamma
+    U0, V0, A0 = (onp.array(x, dtype=float, copy=True) for x in (U, V, A))
+    out = None
+    with ctx.guarded('predict on %s state' % akind, case):
+        out = P.dyn.predict(U, V, A, dt)
+    if out is None:
+        return None
+    Up, Vp = out
+    ok = _unchanged(ctx, ('U', 'V', 'A'), (U, V, A), (U0, V0, A0), 'predict(U, V, A, dt=%r)' % dt, case)
+    Upn, Vpn = onp.array(Up, dtype=float, copy=True), onp.array(Vp, dtype=float, copy=True)
+    if keep is not None:      # the RESULT objects of this call, held by the driver while it goes on calling predict / correct
+        keep.append(('predict(dt=%r)' % dt, ('U_predicted', 'V_predicted'), (Up, Vp), (Upn.copy(), Vpn.copy())))
+    eup = onp.linalg.norm(Upn - (U0 + dt * V0 + 0.5 * dt * dt * (1.0 - 2.0 * b_) * A0))
+    evp = onp.linalg.norm(Vpn - (V0 + dt * (1.0 - g_) * A0))
+    usc = onp.linalg.norm(U0) + dt * onp.linalg.norm(V0) + dt * dt * onp.linalg.norm(A0) + 1e-300
+    vsc = onp.linalg.norm(V0) + dt * onp.linalg.norm(A0) + 1e-300
+    worst['predictor'] = max(worst.get('predictor', 0.0), eup / usc, evp / vsc)
+    if not (eup <= 1e-13 * usc and evp <= 1e-13 * vsc):
+        ctx.fail('conclusion', 'predictor formulas violated against the state the step was started from (%s state): |Up - (U + dt V + dt^2 (1/2 - beta) A)| = %.3g '
+                 '(scale %.3g), |Vp - (V + dt (1 - gamma) A)| = %.3g (scale %.3g)' % (akind, eup, usc, evp, vsc), case=case, concrete=True)
+        ok = False
+    U1 = onp.array(P.minimise(jnp.array(Upn).ravel(), dt)).reshape(P.shape)
+    # correct(UCorrection, Vp, A, dt) on caller-held arrays of the same kind
+    UC, Vpk = as_kind(U1 - Upn, akind), as_kind(Vpn, akind)
+    UCc, Vpc = onp.array(UC, copy=True), onp.array(Vpk, copy=True)
+    out = None
+    with ctx.guarded('correct on %s state' % akind, case):
+        out = P.dyn.correct(UC, Vpk, A, dt)
+    if out is None:
+        return None
+    V1, A1 = (onp.array(x, dtype=float, copy=True) for x in out)
+    if keep is not None:
+        keep.append(('correct(dt=%r)' % dt, ('V_new', 'A_new'), tuple(out), (V1.copy(), A1.copy())))
+    ok = _unchanged(ctx, ('UCorrection', 'V', 'A'), (UC, Vpk, A), (UCc, Vpc, A0), 'correct(UCorrection, V, A, dt=%r)' % dt, case) and ok
+    eu = onp.linalg.norm(U1 - (U0 + dt * V0 + dt * dt * ((0.5 - b_) * A0 + b_ * A1)))
+    ev = onp.linalg.norm(V1 - (V0 + dt * ((1 - g_) * A0 + g_ * A1)))
+    usc = onp.linalg.norm(U1) + dt * onp.linalg.norm(V0) + dt * dt * (onp.linalg.norm(A0) + onp.linalg.norm(A1)) + 1e-300
+    vsc = onp.linalg.norm(V1) + dt * (onp.linalg.norm(A0) + onp.linalg.norm(A1)) + 1e-300
+    worst['update'] = max(worst.get('update', 0.0), eu / usc, ev / vsc)
+    if not (eu <= 1e-11 * usc and ev <= 1e-11 * vsc):
+        ctx.fail('conclusion', 'Newmark update formulas violated against the state the step was started from (%s state held by the caller): |dU| = %.3g (scale %.3g), '
+                 '|dV| = %.3g (scale %.3g)' % (akind, eu, usc, ev, vsc), case=case, concrete=True)
+        ok = False
+    return (as_kind(U1, akind), as_kind(V1, akind), as_kind(A1, akind)) if ok else None
+
+
+def purity_case(ctx, P, akind, U, V, A, dts, kind='energy'):
+    """step-doubling driver on caller-held state of kind akind: from the SAME (U, V, A) one step dt and two steps dt/2 (the two half steps are
+    accepted); every call asserts purity and the formulas against the original state; accepted states conserve energy (trapezoidal, linear
+    elastic) / reproduce the rigid translation.  Returns the number of steps taken."""
+    I = impl()
+    jnp, onp = I['jnp'], I['onp']
+    case = dict(fn='newmark_purity', kind=kind, array_kind=akind, U0=[float(x) for x in onp.asarray(U).ravel()], V0=[float(x) for x in onp.asarray(V).ravel()],
+                A0=[float(x) for x in onp.asarray(A).ravel()], dts=[float(d) for d in dts], **P.args)
+    sh = P.shape
+    U, V, A = (as_kind(onp.asarray(x, dtype=float).reshape(sh), akind) for x in (U, V, A))
+    Ustart, Vstart = onp.array(U, copy=True), onp.array(V, copy=True)
+    E0 = float(P.ke(jnp.array(Vstart).ravel()) + P.se(jnp.array(Ustart).ravel()))
+    worst = {}
+    steps, t = 0, 0.0
+    for k, dt in enumerate(dts):
+        c = dict(case, step=k)
+        keep = []
+        coarse = pure_step(ctx, P, U, V, A, dt, akind, c, worst, keep)
+        half = pure_step(ctx, P, U, V, A, 0.5 * dt, akind, c, worst, keep)     # the SAME old state handed to predict a second time
+        steps += 2
+        if coarse is None or half is None:
+            break
+        fine = pure_step(ctx, P, *half, 0.5 * dt, akind, c, worst, keep)
+        steps += 1
+        # results of earlier calls (the coarse solution kept for the error estimate) are not touched by later calls
+        kept_ok = all([_unchanged(ctx, nms, objs, cps, 'a later predict / correct call, to the kept result of %s,' % wh, c) for wh, nms, objs, cps in keep])
+        if fine is None or not kept_ok:
+            break
+        U, V, A = fine
+        t += dt
+        if kind == 'energy' and E0 > 0:
+            En = float(P.ke(jnp.array(onp.asarray(V)).ravel()) + P.se(jnp.array(onp.asarray(U)).ravel()))
+            drift = abs(En - E0) / E0
+            worst['drift'] = max(worst.get('drift', 0.0), drift)
+            if not drift <= 1e-10 * (2 * k + 2) + 1e-12:
+                ctx.fail('conclusion', 'energy of the accepted states of a step-doubling driver (%s state) not conserved: E0 = %r, after %d accepted steps %r (relative drift %.3g)'
+                         % (akind, E0, k + 1, En, drift), case=c, concrete=True)
+                break
+        if kind == 'translation':
+            exact = Ustart + t * Vstart
+            err = float(onp.max(onp.abs(onp.asarray(U) - exact)))
+            worst['translation'] = max(worst.get('translation', 0.0), err)
+            if not err <= 1e-11 * (1 + t * float(onp.max(onp.abs(Vstart)))):
+                ctx.fail('conclusion', 'rigid translation not reproduced by a step-doubling driver (%s state): max error %.3g at t = %.3g' % (akind, err, t), case=c, concrete=True)
+                break
+    for kk, v in worst.items():
+        ctx.cov['worst_purity_' + kk] = max(ctx.cov.get('worst_purity_' + kk, 0.0), float(v))
+    return steps
+
+
+def purity_stream(ctx, P, r, rounds):
+    """purity + formulas-against-the-original-state on problem P (trapezoidal, linear elastic) for every array kind"""
+    I = impl()
+    jnp, onp = I['jnp'], I['onp']
+    n = P.n
+    Lx = P.args['xExtent'][1]
+    dt_unit = Lx / math.sqrt(P.args['E'] / P.rho) * 10
+    steps = 0
+    for akind in ARRAY_KINDS:
+        V = onp.array([r.uniform(-1, 1) for _ in range(n)])
+        U = onp.array([r.uniform(-0.05 * Lx, 0.05 * Lx) for _ in range(n)])
+        A = onp.array(-jnp.linalg.solve(P.hke(jnp.zeros(n)), P.gse(jnp.array(U))))
+        dts = [10.0 ** r.uniform(-2.0, -0.5) * dt_unit for _ in range(rounds)]
+        steps += purity_case(ctx, P, akind, U, V, A, dts, 'energy')
+        ctx.count('purity_steps_' + akind.replace('-', '_'), 3 * rounds)
+        c = (r.uniform(-1, 1), r.uniform(-1, 1))
+        steps += purity_case(ctx, P, akind, onp.zeros(n), onp.tile(onp.array(c), P.shape[0]), onp.zeros(n), dts[:max(1, rounds // 2)], 'translation')
+    return steps
+
+
+# ----------------------------------------------------------------------------- scale invariance (the update is linear in the state)
+
+def scale_list(ctx, r):
+    """amplitude factors over 1e-12 .. 1e12: powers of two (scaling by them is exact in binary64, so a linear scheme must reproduce the scaled
+    unit-amplitude run to the last bit) and powers of ten / random factors (rounding-level relative differences only)"""
+    out = []
+    for e10 in (-12, -10, -8, -6, -3, 3, 6, 8, 10, 12):
+        out.append((math.ldexp(1.0, round(e10 * math.log2(10))), 'pow2'))
+    for e10 in (-12, -9, -5, 5, 9, 12):
+        out.append((10.0 ** e10, 'pow10'))
+    for _ in range(ctx.n(2, 8)):
+        out.append((r.uniform(1, 10) * 10.0 ** r.randrange(-12, 12), 'rand'))
+    return out
+
+
+def run_plain(P, U, V, A, dts):
+    """states after each step of the real integrator started from jax state (U, V, A) (flat arrays)"""
+    out = []
+    for dt in dts:
+        U, V, A, Up = P.step(U, V, A, dt)
+        out.append((U, V, A, Up))
+    return out
+
+
+def scale_case(ctx, P, U, V, A, dts, s, skind, ref=None):
+    """the run started from s * (U, V, A) is s * (the run started from (U, V, A)), for linear elasticity (Newmark's update is linear)"""
+    I = impl()
+    jnp = I['jnp']
+    U, V, A = (jnp.array(x, dtype=float) for x in (U, V, A))
+    ref = ref if ref is not None else run_plain(P, U, V, A, dts)
+    got = run_plain(P, s * U, s * V, s * A, dts)
+    case = dict(fn='newmark_scale', scale=s, scale_kind=skind, U0=[float(x) for x in U], V0=[float(x) for x in V], A0=[float(x) for x in A],
+                dts=[float(d) for d in dts], **P.args)
+    # powers of two: exact scaling of every intermediate result (1e-12 leaves room for a differently fused reduction only)
+    tol = 1e-12 if skind == 'pow2' else 1e-9
+    worst = 0.0
+    for k, ((Ur, Vr, Ar, Upr), (Us, Vs, As, Ups), dt) in enumerate(zip(ref, got, dts)):
+        asc = nrm(Ar) + (nrm(Ur) + nrm(Upr)) / (P.beta * dt * dt)        # rounding scale of A = (U1 - Up) / (beta dt^2)
+        vsc = nrm(Vr) + dt * asc
+        for nm, x, y, sc in (('U', Us, Ur, nrm(Ur)), ('V', Vs, Vr, vsc), ('A', As, Ar, asc if skind != 'pow2' else nrm(Ar))):
+            err = nrm(x - s * y) / (abs(s) * sc + 1e-300)
+            worst = max(worst, err)
+            if not err <= tol:
+                ctx.fail('conclusion', 'Newmark step is not scale invariant (linear elastic body, no loads): started from %.17g * (U0, V0, A0) the %s after step %d differs from '
+                         '%.17g * (the %s of the run started from (U0, V0, A0)) by %.3g relative to its size (allowed %.1g); |%s| of the scaled run %.3g, expected %.3g'
+                         % (s, nm, k + 1, s, nm, err, tol, nm, nrm(x), abs(s) * nrm(y)), case=dict(case, step=k), concrete=True)
+                return worst, ref
+    return worst, ref
+
+
+def scale_stream(ctx, P, r, nsteps):
+    I = impl()
+    jnp, onp = I['jnp'], I['onp']
+    n = P.n
+    Lx = P.args['xExtent'][1]
+    dt_unit = Lx / math.sqrt(P.args['E'] / P.rho) * 10
+    V = jnp.array([r.uniform(-1, 1) for _ in range(n)])
+    U = jnp.array([r.uniform(-0.05 * Lx, 0.05 * Lx) for _ in range(n)])
+    A = -jnp.linalg.solve(P.hke(jnp.zeros(n)), P.gse(U))
+    dts = [10.0 ** r.uniform(-2.5, -0.5) * dt_unit for _ in range(nsteps)]
+    ref, worst = None, {}
+    scales = scale_list(ctx, r)
+    for s, skind in scales:
+        w, ref = scale_case(ctx, P, U, V, A, dts, s, skind, ref)
+        worst[skind] = max(worst.get(skind, 0.0), w)
+        ctx.count('scale_runs_' + skind)
+    for kk, v in worst.items():
+        ctx.cov['worst_scale_invariance_defect_' + kk] = max(ctx.cov.get('worst_scale_invariance_defect_' + kk, 0.0), v)
+    return len(scales) * nsteps
+
+
+def kernel_scale_and_additivity(ctx, r):
+    """predict / correct of a real DynamicsFunctions on arrays: f(s x) = s f(x) for s over 1e-12..1e12 (exactly for powers of two) and
+    f(x + y) = f(x) + f(y) (to rounding).  The arrays play (U, V, A) resp. (UCorrection, V, A); magnitudes of the unit run over ten decades."""
+    I = impl()
+    jnp, onp = I['jnp'], I['onp']
+    P0fs = _fs_small()
+    mat = I['LE'].create_material_model_functions({'elastic modulus': 1.0, 'poisson ratio': 0.3, 'density': 1.0})
+    ncase = 0
+    worst = dict(pow2=0.0, other=0.0, add=0.0)
+    for _ in range(ctx.n(4, 20)):
+        g = r.choice([0.5, r.uniform(0.5, 1.0)])
+        b = r.choice([0.25, 0.25 * (g + 0.5) ** 2 * r.uniform(1, 1.5)])
+        dyn = I['Mechanics'].create_dynamics_functions(P0fs, 'plane strain', mat, I['Mechanics'].NewmarkParameters(gamma=g, beta=b))
+        dt = 10.0 ** r.uniform(-4, 1)
+        m = 24
+        mag = lambda: [r.choice([-1, 1]) * 10.0 ** r.uniform(-3, 3) if r.random() > 0.05 else 0.0 for _ in range(m)]
+        X = [onp.array(mag()) for _ in range(3)]
+        Y = [onp.array(mag()) for _ in range(3)]
+        fns = (('predict', dyn.predict), ('correct', dyn.correct))
+        unit = {nm: [onp.array(o) for o in f(*(jnp.array(x) for x in X), dt)] for nm, f in fns}
+        uy = {nm: [onp.array(o) for o in f(*(jnp.array(x) for x in Y), dt)] for nm, f in fns}
+        # rounding scales of the two outputs of each function (sum of the magnitudes of the terms)
+        aX = [onp.abs(x) for x in X]
+        rs = dict(predict=[aX[0] + dt * aX[1] + dt * dt * aX[2], aX[1] + dt * aX[2]],
+                  correct=[aX[1] + aX[0] / (b * dt), aX[0] / (b * dt * dt)])
+        for s, skind in scale_list(ctx, r):
+            for nm, f in fns:
+                for akind in ('jax', 'numpy'):
+                    args = [as_kind(s * x, akind) for x in X]
+                    out = [onp.array(o) for o in f(*args, dt)]
+                    ncase += 1
+                    for j, (o, u, sc) in enumerate(zip(out, unit[nm], rs[nm])):
+                        tol = (4e-16 if skind == 'pow2' else 1e-14) * abs(s) * sc
+                        d = onp.abs(o - s * u)
+                        bad = onp.nonzero(~(d <= tol))[0]
+                        rel = float(onp.max(d / (abs(s) * sc + 1e-300)))
+                        key = 'pow2' if skind == 'pow2' else 'other'
+                        worst[key] = max(worst[key], rel)
+                        if bad.size:
+                            i = int(bad[0])
+                            ctx.fail('conclusion', '%s is not homogeneous: with (gamma, beta, dt) = (%r, %r, %r) and arguments %.17g * (%r, %r, %r) output %d is %r, '
+                                     'but %.17g * (output for (%r, %r, %r)) = %r (difference %.3g, allowed %.3g): the Newmark update is linear in the state'
+                                     % (nm, g, b, dt, s, float(X[0][i]), float(X[1][i]), float(X[2][i]), j, float(o[i]), s, float(X[0][i]), float(X[1][i]), float(X[2][i]), float(s * u[i]), float(d[i]), float(tol[i])),
+                                     case=dict(fn='kernel_scale', which=nm, gamma=g, beta=b, dt=dt, scale=s, x=[float(X[0][i]), float(X[1][i]), float(X[2][i])],
+                                               array_kind=akind, output=j), concrete=True)
+                            return ncase
+        for nm, f in fns:
+            out = [onp.array(o) for o in f(*(jnp.array(x + y) for x, y in zip(X, Y)), dt)]
+            aY = [onp.abs(y) for y in Y]
+            rsy = dict(predict=[aY[0] + dt * aY[1] + dt * dt * aY[2], aY[1] + dt * aY[2]], correct=[aY[1] + aY[0] / (b * dt), aY[0] / (b * dt * dt)])
+            ncase += 1
+            for j, (o, u, v) in enumerate(zip(out, unit[nm], uy[nm])):
+                sc = rs[nm][j] + rsy[nm][j]
+                d = onp.abs(o - (u + v))
+                worst['add'] = max(worst['add'], float(onp.max(d / (sc + 1e-300))))
+                bad = onp.nonzero(~(d <= 1e-14 * sc))[0]
+                if bad.size:
+                    i = int(bad[0])
+                    ctx.fail('conclusion', '%s is not additive: (gamma, beta, dt) = (%r, %r, %r), x = (%r, %r, %r), y = (%r, %r, %r): output %d of x + y is %r but the outputs add up to %r'
+                             % (nm, g, b, dt, float(X[0][i]), float(X[1][i]), float(X[2][i]), float(Y[0][i]), float(Y[1][i]), float(Y[2][i]), j, float(o[i]), float(u[i] + v[i])),
+                             case=dict(fn='kernel_add', which=nm, gamma=g, beta=b, dt=dt, x=[float(X[k][i]) for k in range(3)], y=[float(Y[k][i]) for k in range(3)], output=j),
+                             concrete=True)
+                    return ncase
+    for kk, v in worst.items():
+        ctx.cov['worst_kernel_linearity_defect_' + kk] = v
+    return ncase
+
+
+# ----------------------------------------------------------------------------- store tie: model/M_C15_Purity.v vs CPython / numpy / jax
+
+def store_tie_impl(ctx, r):
+    """observable store behaviour of the real function objects: for predict / correct, called (a) as the raw Python function
+    (f.__wrapped__ of the jitted object, or f itself when it is handed out unwrapped) and (b) as handed out by the factory, on writable numpy
+    and on jax arrays: which argument objects were written, which returned objects ARE argument objects.  Returns (coq expressions, observed)."""
+    I = impl()
+    onp = I['onp']
+    mat = I['LE'].create_material_model_functions({'elastic modulus': 1.0, 'poisson ratio': 0.3, 'density': 1.0})
+    dyn = I['Mechanics'].create_dynamics_functions(_fs_small(), 'plane strain', mat, I['Mechanics'].NewmarkParameters(gamma=0.6, beta=0.3025))
+    exprs, obs, labels = [], [], []
+    for name in ('predict', 'correct'):
+        handed = getattr(dyn, name)
+        raw = getattr(handed, '__wrapped__', handed)
+        is_jit = hasattr(handed, '__wrapped__') and hasattr(handed, 'lower')
+        exprs.append('[if c15_%s_wrapped then 1 else 0]' % name)
+        obs.append([1 if is_jit else 0])
+        labels.append('%s: handed out wrapped in jit' % name)
+        for akind, wr in (('numpy', 'true'), ('jax', 'false')):
+            for fobj, wflag, how in ((raw, 'false', 'raw function'), (handed, 'c15_%s_wrapped' % name, 'as handed out')):
+                args = [as_kind([[r.uniform(0.5, 2.0) for _ in range(2)] for _ in range(5)], akind) for _ in range(3)]
+                copies = [onp.array(a, copy=True) for a in args]
+                out = fobj(*args, 0.37)
+                written = [0 if onp.array_equal(onp.asarray(a), c) else 1 for a, c in zip(args, copies)] + [0]
+                rets = [next((i + 1 for i, a in enumerate(args) if o is a), 0) for o in out]
+                exprs.append('map Z.of_nat (concat (store_signature %s c15_%s %s))' % (wflag, name, wr))
+                obs.append(written + rets)
+                labels.append('%s, %s, %s arrays' % (name, how, akind))
+    return exprs, obs, labels
+
+
+_FS = {}
+
+
+def _fs_small():
+    if 'fs' not in _FS:
+        I = impl()
+        mesh = I['Mesh'].construct_structured_mesh(3, 3, (0.0, 1.0), (0.0, 1.0))
+        _FS['fs'] = I['FS'].construct_function_space(mesh, I['QR'].create_quadrature_rule_on_triangle(degree=2))
+    return _FS['fs']
+
+
 def fll(xs):
     return '[' + '; '.join(fl(x) for x in xs) + ']'
 
@@ -496,6 +854,15 @@ def correspondence(ctx, model_ok):
         ctx.log('problem %d (order %d, %d dofs) done' % (pi, order, Pt.n))
         if pi == 0:
             kin_ties.append((Pt, forms))
+        if pi < 2:
+            # purity of predict / correct on caller-held numpy / read-only numpy / jax state under a step-doubling driver, and scale
+            # invariance of the whole step over amplitudes 1e-12 .. 1e12 (own random streams: the older streams see the same numbers as before)
+            ps = purity_stream(ctx, Pt, ctx.rng('purity%d' % pi), ctx.n(2, 5))
+            ss = scale_stream(ctx, Pt, ctx.rng('scale%d' % pi), ctx.n(3, 8))
+            evals += ps + ss
+            ctx.count('purity_steps', ps)
+            ctx.count('scale_invariance_steps', ss)
+            ctx.log('purity (%d steps on numpy / read-only numpy / jax state) and scale invariance (%d steps, amplitudes 1e-12..1e12) on problem %d done' % (ps, ss, pi))
     # element order >= 2 with UNDER-integrating rules on distorted meshes, non-rigid velocity: the energies the library REPORTS
     # (compute_output_kinetic_energy + compute_output_strain_energy) must still be conserved, and the reported mass is the driving mass
     for (order, qd) in ((2, 2), (3, 4)) if not ctx.quick() else ((2, 2),):
@@ -552,6 +919,9 @@ def correspondence(ctx, model_ok):
             V1, A1 = dyn.correct(U, V, A, dt)      # correct(UCorrection, V, A, dt): any array may play UCorrection
             for j, i in enumerate(ii):
                 impl_out[i] = [float(Up[j]), float(Vp[j]), float(V1[j]), float(A1[j])]
+    nk = kernel_scale_and_additivity(ctx, ctx.rng('kernel_scale'))
+    evals += nk
+    ctx.count('kernel_linearity_calls', nk)
     ked = [(r.uniform(-5, 5), r.uniform(-5, 5), 10 ** r.uniform(-2, 2)) for _ in range(ctx.n(50, 300))]
     ked_impl = [float(I['Mechanics'].kinetic_energy_density(jnp.array([a, b]), d)) for a, b, d in ked]
     for (a, b, d), v in zip(ked, ked_impl):
@@ -561,12 +931,27 @@ def correspondence(ctx, model_ok):
     rfe = ctx.rng('fe_model')
     fe_cases = [fe_tie_case(ctx, Pq, rfe) for Pq in [P0] + fe_problems]
     evals += len(FE_NAMES) * len(fe_cases)
+    st_exprs, st_obs, st_labels = store_tie_impl(ctx, ctx.rng('store_tie'))
+    evals += len(st_exprs)
+    ctx.cov['store_behaviour_observed'] = {l: o for l, o in zip(st_labels, st_obs)}
     ctx.count('evaluations', evals + len(ked))
     ctx.count('distinct_nontrivial', len(distinct))
     ctx.sample(dict(fn='predict/correct', gamma=kc[0][0], beta=kc[0][1], U=kc[0][2], V=kc[0][3], A=kc[0][4], dt=kc[0][5], impl=impl_out[0]))
     ctx.sample(dict(fn='newmark run', **kin_ties[0][0].args))
     if not model_ok:
         return
+    st_res = C.coq_eval(IMPORTS + ['From OV.model Require Import M_C15_Purity.', 'From OV.gen Require Import CFG_c15.'], st_exprs, 'C15st', shard=400)
+    st_mism = 0
+    for lab, ob, mo in zip(st_labels, st_obs, st_res):
+        mo = [min(int(x), 1) for x in mo[:4]] + [int(x) for x in mo[4:]] if len(mo) > 1 else [int(x) for x in mo]
+        if mo != ob:
+            st_mism += 1
+            ctx.fail('correspondence', 'store model (model/M_C15_Purity.v on the table regenerated from the source) and the interpreter disagree for %s: model says '
+                     'written = %r, returned objects = %r (argument number, 0 = fresh); observed written = %r, returned = %r'
+                     % (lab, mo[:4], mo[4:], ob[:4], ob[4:]) if len(ob) > 1 else
+                     'gen/CFG_c15.v says "%s" = %r but the object handed out by the factory says %r' % (lab, mo, ob), case=dict(fn='store_tie', which=lab))
+    ctx.count('store_tie_comparisons', len(st_exprs))
+    ctx.count('store_tie_mismatches', st_mism)
     ex = []
     for (g, b, U, V, A, dt, kind) in kc:
         a = ' '.join(fl(x) for x in (g, b, U, V, A, dt))
@@ -664,7 +1049,27 @@ def replay(ctx, path):
     if not case:
         print('no concrete failing input recorded; broken obligations:', rep.get('broken'))
         return 1
-    if case.get('fn') in ('newmark', 'forms'):
+    if case.get('fn') in ('kernel_scale', 'kernel_add'):
+        I = impl()
+        jnp, onp = I['jnp'], I['onp']
+        mat = I['LE'].create_material_model_functions({'elastic modulus': 1.0, 'poisson ratio': 0.3, 'density': 1.0})
+        dyn = I['Mechanics'].create_dynamics_functions(_fs_small(), 'plane strain', mat, I['Mechanics'].NewmarkParameters(gamma=case['gamma'], beta=case['beta']))
+        f = getattr(dyn, case['which'])
+        x = [onp.array([v]) for v in case['x']]
+        j, dt = case['output'], case['dt']
+        fx = float(onp.array(f(*(jnp.array(v) for v in x), dt)[j])[0])
+        if case['fn'] == 'kernel_scale':
+            s_ = case['scale']
+            got = float(onp.array(f(*(as_kind(s_ * v, case.get('array_kind', 'jax')) for v in x), dt)[j])[0])
+            want = s_ * fx
+        else:
+            y = [onp.array([v]) for v in case['y']]
+            got = float(onp.array(f(*(jnp.array(a + b) for a, b in zip(x, y)), dt)[j])[0])
+            want = fx + float(onp.array(f(*(jnp.array(v) for v in y), dt)[j])[0])
+        bad = not abs(got - want) <= 1e-12 * max(abs(got), abs(want))
+        print('implementation now: %s(...) output %d = %r, linearity demands %r -> %s' % (case['which'], j, got, want, 'VIOLATED' if bad else 'holds'))
+        return 1 if bad else 0
+    if case.get('fn') in ('newmark', 'forms', 'newmark_purity', 'newmark_scale'):
         keys = ('Nx', 'Ny', 'xExtent', 'yExtent', 'order', 'E', 'nu', 'rho', 'gamma', 'beta', 'material')
         a = {k: case[k] for k in keys}
         P = Problem(a['Nx'], a['Ny'], tuple(a['xExtent']), tuple(a['yExtent']), a['order'], a['E'], a['nu'], a['rho'], a['gamma'], a['beta'], a['material'],
@@ -673,6 +1078,10 @@ def replay(ctx, path):
         r = c2.rng('replay')
         if case['fn'] == 'forms':
             check_hypotheses_and_mass(c2, P, r)
+        elif case['fn'] == 'newmark_purity':
+            purity_case(c2, P, case['array_kind'], case['U0'], case['V0'], case['A0'], case['dts'], case['kind'])
+        elif case['fn'] == 'newmark_scale':
+            scale_case(c2, P, case['U0'], case['V0'], case['A0'], case['dts'], case['scale'], case['scale_kind'])
         elif 'U0' in case:
             check_steps(c2, P, r, max(len(case.get('dts', [])), 1), case['kind'], set(), init=(case['U0'], case['V0'], case['A0']), dts_fixed=case.get('dts'))
         else:
